@@ -426,7 +426,7 @@ func runC09(c *Ctx) {
 		c09DirectAll(c)
 	}
 	// (b) the sampled subset
-	n := c.Pick(2000, 40000)
+	n := c.Pick(2000, 700000)
 	rng := c.Rng(0)
 	var mine []c09Tuple
 	kindWeights := []int{c09Select, c09Select, c09Select, c09Select, c09Select, c09Use, c09Insert, c09Update, c09Delete, c09Other}
